@@ -135,3 +135,13 @@ def re_matches(regex: Str, text: Str) -> Bool:
     # re.compile(regex).match(text) is not None   (Python's re: assumed, see bounded validation)
     import re
     return re.compile(regex).match(text) is not None
+
+
+@spec
+def nonempty_strs(xs: Seq[Str]) -> Seq[Str]:
+    # the non-empty strings of xs, in order ([l for l in xs if len(l)])
+    if len(xs) == 0:
+        return xs
+    if len(xs[-1]) == 0:
+        return nonempty_strs(xs[:-1])
+    return nonempty_strs(xs[:-1]) + [xs[-1]]
